@@ -888,7 +888,7 @@ def search(ctx, rep):
     run_degenerate_rows(r2, True)
     if r2.oracle_failures:
         return r2.oracle_failures[0]
-    run_real_solves(r2, rng, 1200, check_feasible)
+    run_real_solves(r2, rng, 350, check_feasible)   # bounded: the whole search stays under ~2 min
     return r2.oracle_failures[0] if r2.oracle_failures else None
 
 
